@@ -273,6 +273,15 @@ def r3_backend_parity(ctx):
     """Detector.save/load dispatch on the same extension table to the matching writer/reader; to_asdf/to_hdf5 write self.to_dict(), from_asdf/from_hdf5 rebuild with cls.from_dict; the ASDF backend converts the cluster table to a dict on write and back to a DataFrame on read, and carries version/type/properties/data; the HDF5 backend stores and loads the three property groups and the data group."""
     det = ctx.cls("pyxel.detectors.detector:Detector")
     sv, ld = det.methods["save"], det.methods["load"]
+    # the backends convert EVERY entry they are given: no comprehension over the entries filters some out
+    # (a group without data variables still carries coordinates / attributes)
+    for q in ("pyxel.backends.asdf:to_asdf", "pyxel.backends.asdf:from_asdf"):
+        bf = ctx.func(q)
+        n_c = 0
+        for comp in [x for x in ast.walk(bf.node) if isinstance(x, (ast.DictComp, ast.ListComp, ast.GeneratorExp, ast.SetComp))]:
+            n_c += 1
+            filt = [i for gen in comp.generators for i in gen.ifs]
+            ctx.check(not filt, q + f"#unfiltered:{n_c}", "every entry is converted" if not filt else f"entries are dropped on the way to / from the file (`if {norm(filt[0])[:40]}`): a container saved with such an entry is not the same after loading", where=bf, node=filt[0] if filt else comp)
 
     def table(f, prefix):
         out = {}
